@@ -62,12 +62,24 @@ class GHashTok:
         return str in cs
 
 
+NonEmpty = z3.Bool('registry_is_not_empty')
+
+
 class GRegistry:
     __pyvc_symbolic__ = True
+
+    def __pyvc_truth__(self, eng):
+        return eng.fork(NonEmpty)
+
+    def __pyvc_len__(self, eng):
+        n = z3.Int('registry_size')
+        eng.assume(z3.And(n >= 0, (n > 0) == NonEmpty))
+        return Sym(n)
 
     def __pyvc_contains__(self, eng, key):
         if not isinstance(key, GHashTok):
             raise Unsupported('registry key')
+        eng.assume(z3.Implies(RegP(key.term), NonEmpty))          # a registered hash means the registry is not empty
         return Sym(RegP(key.term))
 
     def __pyvc_getitem__(self, eng, key):
@@ -80,6 +92,7 @@ class GRegistry:
                 default = a[1] if len(a) > 1 else k.get('default')
                 if not isinstance(key, GHashTok):
                     raise Unsupported('registry key')
+                e.assume(z3.Implies(RegP(key.term), NonEmpty))
                 if e.fork(RegP(key.term)):
                     return self.__pyvc_getitem__(e, key)
                 return default
@@ -118,7 +131,20 @@ def children(k, prefix):
 
 
 def same_exp(r, kids):
-    return isinstance(r, list) and len(r) == len(kids) and all(isinstance(x, GExp) and x.of is c for x, c in zip(r, kids))
+    """z3 Bool: r is the list of the children's expansions.  A child returned AS IS is its own expansion exactly when it contains no
+    reference at all — the only case the model can name is: the registry is empty (every reference is then unknown) and the child
+    contains no unknown constant"""
+    if not (isinstance(r, list) and len(r) == len(kids)):
+        return z3.BoolVal(False)
+    fs = []
+    for x, c in zip(r, kids):
+        if isinstance(x, GExp) and x.of is c:
+            continue
+        if x is c:
+            fs.append(z3.And(z3.Not(NonEmpty), z3.Not(Unknown(c.term))))
+        else:
+            return z3.BoolVal(False)
+    return z3.And(*fs) if fs else z3.BoolVal(True)
 
 
 def h_node(form, k):
@@ -149,12 +175,13 @@ def h_node(form, k):
             return
         e.check(f'{tag}::returns.only_if(no child contains an unknown constant)', z3.Not(any_unknown))
         if form == 'prim' and k:
-            ok = isinstance(r, dict) and set(r) == {'prim', 'args', 'annots'} and r['prim'] == 'Pair' and r['annots'] == ['%a'] and same_exp(r['args'], kids)
+            shape = isinstance(r, dict) and set(r) == {'prim', 'args', 'annots'} and r['prim'] == 'Pair' and r['annots'] == ['%a']
+            ok = z3.And(z3.BoolVal(bool(shape)), same_exp(r['args'], kids)) if shape else z3.BoolVal(False)
         elif form == 'seq':
             ok = same_exp(r, kids)
         else:
-            ok = r == node and (r is node or form in ('prim',))
-        e.check(f'{tag}::ensures.children_replaced_by_their_expansion,everything_else_unchanged', z3.BoolVal(bool(ok)))
+            ok = z3.BoolVal(bool(r == node and (r is node or form in ('prim',))))
+        e.check(f'{tag}::ensures.children_replaced_by_their_expansion,everything_else_unchanged', ok)
         if form in ('prim', 'seq') and k:
             e.check(f'{tag}::frame.input_not_modified', z3.BoolVal((node['args'] if form == 'prim' else node) == kids or all(a is b for a, b in zip(node if form == 'seq' else node['args'], kids))))
     return h
